@@ -14,22 +14,24 @@ import (
 )
 
 type FnResult struct {
-	Key      string
-	Display  string
-	Obls     []*Obl
-	Notes    []string
-	Unmod    []string
-	Externs  []string
-	Inlines  []string
-	Errors   []string
-	Header   string
-	Items    []string
-	Vacuity  string // sat, unsat, unknown
-	Loops    int
-	Contract *Contract
-	Axioms   []string
-	Lemmas   []string
-	RetReach string
+	Key       string
+	Display   string
+	Obls      []*Obl
+	Notes     []string
+	Unmod     []string
+	Externs   []string
+	Inlines   []string
+	Errors    []string
+	Header    string
+	Items     []string
+	Vacuity   string // sat, unsat, unknown
+	Canaries  []*Obl // program points at which "false" must not be derivable
+	VacuousAt []string
+	Loops     int
+	Contract  *Contract
+	Axioms    []string
+	Lemmas    []string
+	RetReach  string
 }
 
 func newEnc(P *Program, fn *ssa.Function, c *Contract, W *World) *Enc {
@@ -327,6 +329,7 @@ func verifyFunction(P *Program, key string, opts *runOpts) *FnResult {
 	}
 	res.RetReach = sOr(reaches...)
 	res.Vacuity = "skipped"
+	res.Canaries = e.canaries
 	if opts != nil && !opts.noSolve {
 		dischargeAll(res, opts)
 	}
@@ -393,6 +396,31 @@ func dischargeAll(res *FnResult, opts *runOpts) {
 			o.Script = filepath.Join(dir, shortName(o.Name, 90)+".smt2")
 		}(o)
 	}
+	// canaries: with all hypotheses (quantified ones included) "false" must not follow at any
+	// return or loop back edge; a quick E-matching run is enough to expose contradictory
+	// assumed contracts or invariants
+	var cmu sync.Mutex
+	for _, o := range res.Canaries {
+		wg.Add(1)
+		go func(o *Obl) {
+			defer wg.Done()
+			sem <- struct{}{}
+			defer func() { <-sem }()
+			var b strings.Builder
+			b.WriteString(res.Header)
+			for _, it := range res.Items[:o.At] {
+				b.WriteString(it)
+				b.WriteString("\n")
+			}
+			fmt.Fprintf(&b, "(assert %s)\n(check-sat)\n", o.Reach)
+			r := discharge(b.String(), dir, o.Name, 3, opts.seed, true)
+			if r.status == "unsat" {
+				cmu.Lock()
+				res.VacuousAt = append(res.VacuousAt, o.Name)
+				cmu.Unlock()
+			}
+		}(o)
+	}
 	// vacuity check in parallel
 	wg.Add(1)
 	go func() {
@@ -411,6 +439,10 @@ func dischargeAll(res *FnResult, opts *runOpts) {
 		res.Vacuity = r.status
 	}()
 	wg.Wait()
+	if len(res.VacuousAt) > 0 {
+		sort.Strings(res.VacuousAt)
+		res.Vacuity = "unsat"
+	}
 }
 
 func firstLines(s string, n int) string {
@@ -594,7 +626,7 @@ func entryClosedAxioms(w *World, c *Comp) []string {
 		if c.KeySort == "" {
 			return nil
 		}
-		return []string{fmt.Sprintf("(assert (forall ((m Int) (k %s)) (! %s :pattern ((select (select %s m) k)))))", c.KeySort, f("(select (select "+n+" m) k)"), n)}
+		return []string{fmt.Sprintf("(assert (forall ((m Int) (k %s)) (! (=> (<= m alloc@0) %s) :pattern ((select (select %s m) k)))))", c.KeySort, f("(select (select "+n+" m) k)"), n)}
 	case "ghost":
 		// a ghost map describes existing objects only
 		if c.KeySort == "" {
@@ -602,9 +634,13 @@ func entryClosedAxioms(w *World, c *Comp) []string {
 		}
 		return []string{fmt.Sprintf("(assert (forall ((r %s)) (! %s :pattern ((select %s r)))))", c.KeySort, f("(select "+n+" r)"), n)}
 	case "field", "cell":
-		return []string{fmt.Sprintf("(assert (forall ((r Int)) (! %s :pattern ((select %s r)))))", f("(select "+n+" r)"), n)}
+		// only objects that exist at entry are described: the fields of objects allocated later start
+		// from these (unconstrained) values and may come to hold fresh references
+		w.needRoot()
+		return []string{fmt.Sprintf("(assert (forall ((r Int)) (! (=> (<= (root r) alloc@0) %s) :pattern ((select %s r)))))", f("(select "+n+" r)"), n)}
 	case "elems":
-		return []string{fmt.Sprintf("(assert (forall ((r Int) (i Int)) (! %s :pattern ((select (select %s r) i)))))", f("(select (select "+n+" r) i)"), n)}
+		w.needRoot()
+		return []string{fmt.Sprintf("(assert (forall ((r Int) (i Int)) (! (=> (<= (root r) alloc@0) %s) :pattern ((select (select %s r) i)))))", f("(select (select "+n+" r) i)"), n)}
 	}
 	return nil
 }
